@@ -333,10 +333,12 @@ func (i *instance) HAProxyUpdate(timer *utils.Timer) error {
 		timer.Tick("shuffle_endpoints")
 	}
 	i.config.Backends().FillSourceIPs()
-	if !updated || updater.cmdCnt > 0 {
+	if !updated || updater.cmdCnt > 0 || len(i.config.Backends().ItemsDel()) > 0 {
 		// only need to rewrite config files if:
 		//   - !updated           - there are changes that cannot be dynamically applied
 		//   - updater.cmdCnt > 0 - there are changes that was dynamically applied
+		//   - len(ItemsDel) > 0  - there are removed backends, which does not need a reload
+		//                          but should not be left in the config files
 		err := i.writeConfig()
 		timer.Tick("write_config")
 		if err != nil {
